@@ -1,4 +1,4 @@
-"""Regenerate the table of seeded changes in DESIGN.md (section 9.4) from /verif/seeded/*/meta.json.
+"""Regenerate the table of seeded changes in DESIGN.md (section 9.5) from /verif/seeded/*/meta.json.
 usage: python3 harness/seedtable.py            (rewrites the block between the two markers in DESIGN.md)"""
 import json
 import os
